@@ -223,7 +223,7 @@ class XsdIdentity(XsdComponent):
                         e = e.ref
                     if e not in self.elements:
                         self.elements[e] = [FieldValueSelector(f, e) for f in self.fields]
-                        e.selected_by.add(self)
+                    e.selected_by.add(self)
 
             elif not isinstance(e, (XsdAnyElement, XPathElement)):
                 msg = _("selector xpath expression can only select elements")
@@ -243,7 +243,7 @@ class XsdIdentity(XsdComponent):
                     e = e.ref
                 if e not in self.elements:
                     self.elements[e] = [FieldValueSelector(f, e) for f in self.fields]
-                    e.selected_by.add(self)
+                e.selected_by.add(self)
 
     def get_counter(self, elem: ElementType) -> 'IdentityCounter':
         return IdentityCounter(self, elem)
